@@ -21,6 +21,9 @@ type held struct {
 	Acq  ssa.Instruction // the acquiring Lock call; nil = held on entry (by the callers) or merged from different sites
 	// Sec identifies the critical section: acquisition instruction, or a synthetic id
 	Sec string
+	// Abs is the lock's abstract name (Type.field or global), kept so that a lock held by a caller that the callee
+	// cannot name through its parameters is still known to be held ("caller:Type.field")
+	Abs string
 }
 
 type LockSet map[string]held // lock path -> held
@@ -111,11 +114,12 @@ func (a Access) Write() bool { return a.Kind == "W" || a.Kind == "MW" || a.Kind 
 type Lockset struct {
 	p *Prog
 
-	fns     []*ssa.Function
-	entry   map[*ssa.Function]LockSet // must-hold on entry (nil = not yet known / top)
-	at      map[ssa.Instruction]LockSet
-	syncPar map[*ssa.Function]ssa.Instruction // closure run synchronously: its MakeClosure site
-	ctorFn  map[*ssa.Function]bool            // function runs only on a receiver under construction
+	fns         []*ssa.Function
+	entry       map[*ssa.Function]LockSet // must-hold on entry (nil = not yet known / top)
+	deferredPar map[*ssa.Function]bool    // function literals that are only ever deferred by their parent
+	at          map[ssa.Instruction]LockSet
+	syncPar     map[*ssa.Function]ssa.Instruction // closure run synchronously: its MakeClosure site
+	ctorFn      map[*ssa.Function]bool            // function runs only on a receiver under construction
 
 	Accesses map[string][]Access // "Type.field" -> accesses
 	modMemo  map[*ssa.Function]int
@@ -220,6 +224,19 @@ func BuildLockset(p *Prog, shorts ...string) *Lockset {
 
 func (ls *Lockset) closureUseIsSync(ref ssa.Instruction, mc *ssa.MakeClosure) bool {
 	switch x := ref.(type) {
+	case *ssa.Defer:
+		// "defer func() {…}()": runs when the parent returns — the locks the parent's callers hold are still held
+		// then (the parent's own locks may have been released: only entry-held locks are passed on, see entryFromCallers)
+		if x.Call.Value == ssa.Value(mc) {
+			if ls.deferredPar == nil {
+				ls.deferredPar = map[*ssa.Function]bool{}
+			}
+			if anon, ok := mc.Fn.(*ssa.Function); ok {
+				ls.deferredPar[anon] = true
+			}
+			return true
+		}
+		return false
 	case *ssa.Call:
 		// passed as an argument to a known synchronous library routine, or called directly
 		if x.Call.Value == ssa.Value(mc) {
@@ -287,6 +304,15 @@ func (ls *Lockset) entryFromCallers(f *ssa.Function) (LockSet, bool) {
 			return nil, false
 		}
 		// closure paths are expressed in the parent's names (free variables resolve to their bindings)
+		if ls.deferredPar[f] {
+			res := LockSet{}
+			for k, v := range l {
+				if v.Acq == nil && strings.HasPrefix(v.Sec, "entry:") {
+					res[k] = v
+				}
+			}
+			return res, true
+		}
 		return l.clone(), true
 	}
 	var res LockSet
@@ -328,11 +354,12 @@ func (ls *Lockset) mapToCallee(cl LockSet, site ssa.CallInstruction, callee *ssa
 		args = c.Args
 	}
 	for k, v := range cl {
-		h := held{Read: v.Read, Sec: "entry:" + v.Sec}
-		if strings.HasPrefix(k, "global:") {
+		h := held{Read: v.Read, Sec: "entry:" + v.Sec, Abs: v.Abs}
+		if strings.HasPrefix(k, "global:") || strings.HasPrefix(k, "caller:") {
 			res[k] = h
 			continue
 		}
+		mapped := false
 		for i, a := range args {
 			if i >= len(callee.Params) {
 				break
@@ -344,7 +371,13 @@ func (ls *Lockset) mapToCallee(cl LockSet, site ssa.CallInstruction, callee *ssa
 			if k == ap || strings.HasPrefix(k, ap+".") {
 				pp := Path(callee.Params[i])
 				res[pp+strings.TrimPrefix(k, ap)] = h
+				mapped = true
 			}
+		}
+		// held by the caller on an object the callee does not receive (a generator closure called under its
+		// owner's lock): still held, under its abstract name
+		if !mapped && v.Abs != "" && !strings.HasPrefix(v.Abs, "?:") {
+			res["caller:"+v.Abs] = h
 		}
 	}
 	return res
@@ -381,9 +414,9 @@ func (ls *Lockset) flow(f *ssa.Function) {
 			lp := Path(mu)
 			switch op {
 			case "Lock":
-				cur[lp] = held{Acq: call, Sec: fmt.Sprintf("acq@%p", call)}
+				cur[lp] = held{Acq: call, Sec: fmt.Sprintf("acq@%p", call), Abs: abstractLock(mu)}
 			case "RLock":
-				cur[lp] = held{Read: true, Acq: call, Sec: fmt.Sprintf("acq@%p", call)}
+				cur[lp] = held{Read: true, Acq: call, Sec: fmt.Sprintf("acq@%p", call), Abs: abstractLock(mu)}
 			case "Unlock", "RUnlock":
 				delete(cur, lp)
 			}
@@ -728,7 +761,9 @@ func (ls *Lockset) innerMapUses(f *ssa.Function, fa *ssa.FieldAddr, inner ssa.Va
 func (a Access) heldOnSameObject() map[string]held {
 	res := map[string]held{}
 	for lp, h := range a.Locks {
-		if strings.HasPrefix(lp, "global:") {
+		if strings.HasPrefix(lp, "global:") || strings.HasPrefix(lp, "caller:") {
+			// a package-level lock, or a lock of the owning object that every caller holds (the state of a generator
+			// closure reached only through a field of its owner, under the owner's lock)
 			res[lp] = h
 			continue
 		}
